@@ -304,7 +304,7 @@ fn main() {
     let t0 = Instant::now();
     install_panic_recorder();
     let rt = tokio::runtime::Builder::new_multi_thread().worker_threads(8).enable_all().build().unwrap();
-    let mut rec = Recorder::new("cut: a generated valid BMP stream (Initiation, 2-4 Peer Ups, 2-5 route/statistics messages, optional Peer Down, optional Termination) cut at every byte offset with end-of-input, each io::ErrorKind of the tier's list (non-fatal kinds followed by the rest of the stream) and gate termination, through the real read_from_router; tcp: the real accept_config on a loopback connection (close, reset, close mid-message, malformed framing, Termination then close / silence, unit shutdown); non-trivial = at least one Peer Up was processed before the end (there is something to withdraw); distinct = distinct case lines");
+    let mut rec = Recorder::new("cut: a generated valid BMP stream (Initiation, 2-4 Peer Ups, 2-5 route/statistics messages, optional Peer Down, optional Termination) cut at every byte offset with end-of-input, each io::ErrorKind of the tier's list (non-fatal kinds followed by the rest of the stream) and gate termination, through the real read_from_router; the same around a 4-66 KiB message (boundaries, every 4 KiB multiple, last bytes, random offsets) and at the end of long sessions of rejected messages; tcp: the real accept_config on a loopback connection (close, reset, close mid-message, malformed framing, Termination then close / silence, unit shutdown); non-trivial = at least one Peer Up was processed before the end (there is something to withdraw); distinct = distinct case lines");
     let fatal = |k: ErrorKind| hooks::is_fatal(k);
 
     let record = |rec: &mut Recorder, kind: &str, script: &Script, o: Obs| {
@@ -412,6 +412,40 @@ fn main() {
             for k in &kinds { jobs.push(vec![Item::Data(all[..c].to_vec()), Item::Fault(*k), Item::Data(all[c..].to_vec())]); }
             jobs.push(vec![Item::Data(all[..c].to_vec()), Item::Term, Item::Data(all[c..].to_vec())]); // unit shutdown at c
             if c % 64 == 7 { jobs.push(vec![Item::Data(all[..c].to_vec()), Item::Idle]); }     // silence at c (sampled: each costs a wait)
+        }
+    }
+    // 3. messages far larger than one read buffer, and long sessions of rejected messages: cut at the
+    //    message boundaries, around every 4 KiB multiple, in the last bytes and at random offsets
+    let nbig = if args.thorough { 6 } else { 2 };
+    for bi in 0..nbig {
+        let size = match bi { 0 => 4200, 1 => 9000, 2 => 66000, _ => g.range(4097, 70000) as usize };
+        let mut msgs = vec![initiation(), peer_up(0), peer_up(1), route_monitoring(0, 1)];
+        msgs.push(big_initiation(size));
+        msgs.push(route_monitoring(1, 2));
+        let all: Vec<u8> = msgs.concat();
+        let start: usize = msgs[..4].iter().map(|m| m.len()).sum();
+        let end = start + msgs[4].len();
+        let mut offs: Vec<usize> = vec![start, start + 1, start + 5, start + 6, end - 1, end, end + 1, all.len()];
+        let mut k = 4096; while start + k < end + 2 { for d in [-1i64, 0, 1] { offs.push((start as i64 + k as i64 + d) as usize); } k += 4096; }
+        for d in 2..12 { offs.push(end - d); }
+        for _ in 0..(if args.thorough { 60 } else { 16 }) { offs.push(g.range(start as u64, end as u64) as usize); }
+        offs.sort(); offs.dedup();
+        rec.bump_by("cut.big-message-offsets", offs.len() as u64);
+        for c in offs { if c > all.len() { continue; }
+            jobs.push(vec![Item::Data(all[..c].to_vec())]);
+            jobs.push(vec![Item::Data(all[..c].to_vec()), Item::Fault(ErrorKind::ConnectionReset), Item::Data(all[c..].to_vec())]);
+            jobs.push(vec![Item::Data(all[..c].to_vec()), Item::Term, Item::Data(all[c..].to_vec())]);
+        }
+    }
+    for _ in 0..(if args.thorough { 400 } else { 60 }) {
+        let mut msgs = vec![initiation(), peer_up(0), peer_up(1)];
+        msgs.extend(long_stream(&mut g).into_iter().skip(1));
+        let all: Vec<u8> = msgs.concat();
+        rec.bump("cut.long-invalid-session");
+        match g.below(3) {
+            0 => jobs.push(vec![Item::Data(all)]),
+            1 => jobs.push(vec![Item::Data(all), Item::Fault(ErrorKind::ConnectionReset)]),
+            _ => { let c = g.range(all.len() as u64 / 2, all.len() as u64) as usize; jobs.push(vec![Item::Data(all[..c].to_vec())]); }
         }
     }
     // a non-fatal fault in the middle of a message desynchronises the framing; payload bytes are then
